@@ -4,6 +4,11 @@ NOTES = ("All checks run /venv/bin/python on bitstring imported from /repo's wor
          "known_findings.json lists genuine defects (open: reported as KNOWN-FINDING; fixed: suppress nothing).")
 NOT_APPLICABLE = {}
 CHECKS = {
+ 'C02': dict(
+    text="Bounded exhaustive exploration of (dtype, length, value) x route x class: every fixed-length dtype and alias, every legal length in the stated lists, all values for small widths and the boundary family above, all 65536 binary16 patterns and an exponent x mantissa family for binary32/64; each value is built through 14 creation routes (keyword+length, sized keyword, sized/unsized property assignment, both token spellings, Dtype.build both spellings, pack with positional/embedded/keyword length and value, fromstring, Array) on all four classes and compared with an independent encoder (int arithmetic / format(), struct.pack, byte reversal), and read back through 9 reading routes; conversely every bit pattern of each small valid width is interpreted and rebuilt.",
+    design_ref="DESIGN.md section 4 C02",
+    note="Trusts Python int/format/struct as the definition. Native-endian expectations derive from sys.byteorder (little-endian only). Wide integers only at boundary values.",
+    technique="explicit-state bounded exhaustive enumeration (product explorer) with independent reference encoders"),
  'C11': dict(
     text="Fully exhaustive tables plus boundary enumeration: every code of every format is decoded through six reading routes (and under lsb0) and compared bit-exactly (sign of zero, NaN, infinities) with an exact model; every one of the 65536 binary16 values is encoded into every format under both mxfp_overflow settings, and for every pair of adjacent binary16 values the midpoint and its two binary64 neighbours (both signs), the binary16 overflow threshold, format-specific overflow thresholds and specials are encoded too; all eight creation routes on a fixed stride; mxint at every k/128 +-1ulp, e8m0 at every power of two and its neighbours, bfloat on all 65536 codes in every byte order and on a binary32 pattern family plus every bfloat midpoint; scaled dtypes; decode->re-encode identity.",
     design_ref="DESIGN.md section 4 C11",
